@@ -276,6 +276,52 @@ func Pbkvs(c PBCfg) *mpexec.System {
 				}
 			}})
 	}
+	// the mayFail macro: second choice point of these labels (first of replicaLoop), last option = crash
+	s.CrashChoices = []string{"AReplica.replicaLoop.0", "AReplica.sndSyncReqLoop.1", "AReplica.sndReplicaReqLoop.1", "AReplica.rcvReplicaRespLoop.1"}
+	// client-visible history (C14): invocation when a client takes a request from the input channel
+	// (clientLoop commits), response when it accepts the answer carrying its request id (rcvResp
+	// commits with the next label clientLoop) and hands the content to the output
+	s.Observe = func(p *mpexec.Proc, label, newPC string, local func(res string) tla.Value) interface{} {
+		if p.Group != "Client" {
+			return nil
+		}
+		f := func(v tla.Value, name string) tla.Value { return v.ApplyFunction(tla.MakeString(name)) }
+		str := func(v tla.Value) string {
+			if v.IsString() {
+				return v.AsString()
+			}
+			return v.String()
+		}
+		switch {
+		case label == "clientLoop" && newPC == "sndReq":
+			msg := local("AClient.msg")
+			body := f(msg, "body")
+			ev := map[string]interface{}{"op": "inv", "client": p.Self.String(), "key": str(f(body, "key")), "idx": local("AClient.idx").String()}
+			if f(msg, "typ").Equal(num(3)) {
+				ev["kind"] = "put"
+				ev["val"] = str(f(body, "value"))
+			} else {
+				ev["kind"] = "get"
+			}
+			return ev
+		case label == "rcvResp" && newPC == "clientLoop":
+			resp := local("AClient.resp")
+			msg := local("AClient.msg")
+			content := str(f(f(resp, "body"), "content"))
+			ev := map[string]interface{}{"op": "ret", "client": p.Self.String(), "idx": f(resp, "id").String(), "from": f(resp, "from").String()}
+			if f(msg, "typ").Equal(num(3)) {
+				// a Put is acknowledged with ACK_MSG_BODY; the history records the value it installed
+				ev["ok"] = content == "ack-body"
+				ev["rval"] = str(f(f(msg, "body"), "value"))
+				ev["ack"] = content
+			} else {
+				ev["ok"] = content != "" // fs[_][key] = "" is the store's "no value"
+				ev["rval"] = content
+			}
+			return ev
+		}
+		return nil
+	}
 	return s
 }
 
